@@ -33,6 +33,8 @@ fn table(id: &str) -> Option<(RunFn, ReplayFn)> {
         "C03" => (props::c03::run, props::c03::replay),
         "C04" => (props::c04::run, props::c04::replay),
         "C07" => (props::c07::run, props::c07::replay),
+        "C08" => (props::c08::run, props::c08::replay),
+        "C12" => (props::c12::run, props::c12::replay),
         "C13" => (props::c13::run, props::c13::replay),
         "C14" => (props::c14::run, props::c14::replay),
         "C19" => (props::c19::run, props::c19::replay),
@@ -91,6 +93,7 @@ fn main() {
         "worker" => {
             match args[2].as_str() {
                 "C04" => props::c04::worker_main(&args[3..]),
+                "C12" => props::c12::worker_main(&args[3..]),
                 "C13" => props::c13::worker_main(&args[3..]),
                 other => {
                     eprintln!("no worker for {}", other);
@@ -157,6 +160,9 @@ fn main() {
                 std::process::exit(2);
             };
             props::install_quiet_panic_hook();
+            if let Some(m) = &merge {
+                std::env::set_var("VH_MERGE_FILE", m);
+            }
             let _ = KNOWN.set(load_known(&cfg.verif_dir).into_iter().filter(|k| k.property == id).collect());
             let (meta, mut out, mut extra) = run(&cfg);
             if let Some(path) = merge {
